@@ -102,21 +102,26 @@ var c12perms = []c12perm{
 	{"dash", map[string]string{"-": "dash", ".": "dot", "os.x": "osx"}},
 }
 
-var c12positions = []string{"command", "label", "plugin-source", "plugin-config-key", "plugin-config-value", "plugin-config-nested", "env-value", "extra-key", "extra-value", "extra-nested-key", "extra-list",
+// positions joined with "+" carry the string at both places (a key and a value of one mapping)
+var c12positions = []string{"extra-nested-key+extra-nested-value", "extra-key+extra-value", "plugin-config-key+plugin-config-value", "extra-nested-value", "command", "label", "plugin-source", "plugin-config-key", "plugin-config-value", "plugin-config-nested", "env-value", "extra-key", "extra-value", "extra-nested-key", "extra-list",
 	"env-name", "key", "matrix-setup-value", "matrix-adjust-with", "matrix-extra", "signature-value", "signature-field", "cache-path"}
 
 var c12inScope = map[string]bool{"command": true, "label": true, "plugin-source": true, "plugin-config-key": true, "plugin-config-value": true, "plugin-config-nested": true,
-	"env-value": true, "extra-key": true, "extra-value": true, "extra-nested-key": true, "extra-list": true}
+	"env-value": true, "extra-key": true, "extra-value": true, "extra-nested-key": true, "extra-list": true, "extra-nested-value": true,
+	"extra-nested-key+extra-nested-value": true, "extra-key+extra-value": true, "plugin-config-key+plugin-config-value": true}
 
 type c12case struct {
 	S    string  `json:"string"`
 	Pos  string  `json:"position"`
 	Perm c12perm `json:"perm"`
+	// Rep: "" = the step as built by hand (plain Go maps), "parsed" = that step's JSON decoded by CommandStep.UnmarshalJSON
+	// (nested unknown mappings are ordered maps, as in every parsed pipeline)
+	Rep string `json:"representation,omitempty"`
 }
 
 func c12step(c c12case) *pipeline.CommandStep {
 	at := func(pos, dflt string) string {
-		if c.Pos == pos {
+		if c.Pos == pos || strings.HasPrefix(c.Pos, pos+"+") || strings.HasSuffix(c.Pos, "+"+pos) {
 			return c.S
 		}
 		return dflt
@@ -149,7 +154,7 @@ func c12step(c c12case) *pipeline.CommandStep {
 		Cache:     &pipeline.Cache{Paths: []string{at("cache-path", "cp")}},
 		RemainingFields: map[string]any{
 			at("extra-key", "ek"): at("extra-value", "ev"),
-			"nested":              map[string]any{at("extra-nested-key", "nk"): "nv"},
+			"nested":              map[string]any{at("extra-nested-key", "nk"): at("extra-nested-value", "nv"), "nk2": "nv2"},
 			"list":                []any{at("extra-list", "li"), 2},
 		},
 	}
@@ -218,6 +223,15 @@ func c12judge(c c12case, choose verifseam.Chooser) (kind, detail string) {
 	if err != nil {
 		return "harness", "marshal before: " + err.Error()
 	}
+	if c.Rep == "parsed" {
+		st = &pipeline.CommandStep{}
+		if err := json.Unmarshal(bj, st); err != nil {
+			return "skipped", "" // the hand-built step's JSON is not a parsable step (e.g. two keys became equal)
+		}
+		if bj, err = json.Marshal(st); err != nil {
+			return "harness", "marshal parsed step: " + err.Error()
+		}
+	}
 	before, err := docgen.FromJSON(bj)
 	if err != nil {
 		return "harness", err.Error()
@@ -274,10 +288,14 @@ func c12run(w *report.W) {
 		maxPieces = 4
 	}
 	strs := map[string]bool{}
+	pieces := map[string]int{} // fewest pieces that give the string
 	var rec func(prefix string, depth int)
 	rec = func(prefix string, depth int) {
 		if depth > 0 {
 			strs[prefix] = true
+			if d, ok := pieces[prefix]; !ok || depth < d {
+				pieces[prefix] = depth
+			}
 		}
 		if depth == maxPieces {
 			return
@@ -298,26 +316,35 @@ func c12run(w *report.W) {
 	for _, s := range list {
 		for _, pos := range c12positions {
 			for _, perm := range c12perms {
-				c := c12case{s, pos, perm}
-				key := s + "\x00" + pos + "\x00" + perm.Name
-				if !w.Take(key) {
-					continue
+				for _, rep := range []string{"", "parsed"} {
+					if rep == "parsed" && !w.Thorough() && pieces[s] > 2 {
+					continue // quick: the parsed representation for strings of <=2 pieces
 				}
-				w.P.Evaluations++
-				kind, detail := c12judge(c, nil)
-				_, unk := c12scan(s, perm.P)
-				replaced, _ := c12scan(s, perm.P)
-				if replaced != s || len(unk) > 0 {
-					w.P.Nontrivial++
-				}
-				w.Obs(fmt.Sprintf("pos=%s perm=%s unknown=%v result=%s", pos, perm.Name, len(unk) > 0, kind))
-				if kind == "harness" {
-					w.HarnessError("%s", detail)
-					return
-				}
-				if kind != "" {
-					cb, _ := json.Marshal(c)
-					w.Violate(report.Violation{Kind: kind, Case: string(cb), Detail: detail, Size: len(s), Replay: c})
+				c := c12case{s, pos, perm, rep}
+					key := s + "\x00" + pos + "\x00" + perm.Name + "\x00" + rep
+					if !w.Take(key) {
+						continue
+					}
+					w.P.Evaluations++
+					kind, detail := c12judge(c, nil)
+					if kind == "skipped" {
+						w.Count("parsed_representation_skipped", 1)
+						continue
+					}
+					_, unk := c12scan(s, perm.P)
+					replaced, _ := c12scan(s, perm.P)
+					if replaced != s || len(unk) > 0 {
+						w.P.Nontrivial++
+					}
+					w.Obs(fmt.Sprintf("pos=%s perm=%s unknown=%v result=%s", pos, perm.Name, len(unk) > 0, kind))
+					if kind == "harness" {
+						w.HarnessError("%s", detail)
+						return
+					}
+					if kind != "" {
+						cb, _ := json.Marshal(c)
+						w.Violate(report.Violation{Kind: kind, Case: string(cb), Detail: detail, Size: len(s), Replay: c})
+					}
 				}
 			}
 		}
@@ -327,12 +354,12 @@ func c12run(w *report.W) {
 		}
 	}
 	if w.Shard == 0 {
-		w.Sample(c12case{"x{{ matrix.os }}{{matrix.nope}}", "plugin-config-key", c12perms[1]})
-		w.Sample(c12case{"{{matrix.os}}", "extra-key", c12perms[2]})
+		w.Sample(c12case{"x{{ matrix.os }}{{matrix.nope}}", "plugin-config-key", c12perms[1], ""})
+		w.Sample(c12case{"{{matrix.os}}", "extra-key", c12perms[2], "parsed"})
 	}
 	// empty permutation on a step without matrix changes nothing
 	if w.Take("empty-perm") {
-		st := c12step(c12case{"{{matrix}}", "command", c12perms[0]})
+		st := c12step(c12case{"{{matrix}}", "command", c12perms[0], ""})
 		st.Matrix = nil
 		before := snap.Deep(&st)
 		var err error
@@ -341,7 +368,7 @@ func c12run(w *report.W) {
 		if pan != "" || err != nil || snap.Deep(&st) != before {
 			w.Violate(report.Violation{Kind: "empty-permutation", Case: "empty permutation, nil matrix", Detail: fmt.Sprintf("err=%v panic=%s changed=%v", err, pan, snap.Deep(&st) != before), Size: 1})
 		}
-		st2 := c12step(c12case{"{{matrix}}", "command", c12perms[0]})
+		st2 := c12step(c12case{"{{matrix}}", "command", c12perms[0], ""})
 		st2.Matrix = nil
 		pan = report.Catch(func() { err = st2.InterpolateMatrixPermutation(pipeline.MatrixPermutation{}) })
 		if pan != "" || err != nil || st2.Command != "{{matrix}}" {
@@ -359,7 +386,7 @@ func c12run(w *report.W) {
 	for _, s := range c12pieces {
 		for _, pos := range []string{"plugin-config-key", "plugin-config-value", "env-value", "env-name", "extra-key", "extra-value", "extra-nested-key"} {
 			for _, perm := range c12perms[1:4] {
-				c := c12case{s, pos, perm}
+				c := c12case{s, pos, perm, ""}
 				if !w.Take("seam\x00" + s + "\x00" + pos + "\x00" + perm.Name) {
 					continue
 				}
@@ -389,8 +416,9 @@ func init() {
 	register(&report.Check{
 		ID: "C12",
 		Rule: "every concatenation of <=3 (quick) / <=4 (thorough) pieces over a 24-piece alphabet (tokens with and without inner whitespace, dotted / dashed / dot-leading dimension names, unknown dimensions, " +
-			"near misses, brace fragments, plain text) x 19 positions of a command step (11 in scope: command, label, plugin source, config keys/values/nested, env values, unknown-field keys/values/nested/list; " +
-			"8 out of scope: env names, key, matrix setup/with/extra, signature value/field, cache) x 5 permutations (anonymous, named with . - _, token-shaped values, dot-leading names, dash/dot names); " +
+			"near misses, brace fragments, plain text) x 23 positions of a command step (the same string at a key and a value of one mapping for three mappings; 12 single positions in scope: command, label, plugin source, config keys/values/nested, env values, unknown-field keys/values/nested/list; " +
+			"8 out of scope: env names, key, matrix setup/with/extra, signature value/field, cache) x 5 permutations (anonymous, named with . - _, token-shaped values, dot-leading names, dash/dot names) x 2 representations of the step (built by hand with plain Go maps; its JSON decoded by CommandStep.UnmarshalJSON, " +
+			"whose nested unknown mappings are ordered maps - quick: strings of <=2 pieces); " +
 			"InterpolateMatrixPermutation on the real code vs. a hand-written single-pass scanner mapped over the step's JSON before the call; unknown dimension in scope => error; empty permutation => deep " +
 			"snapshot unchanged; every iteration order of the library's map loops for one-piece strings at map-backed positions. Non-trivial = the string contains a token (replaced or unknown).",
 		Assumptions: []string{
